@@ -223,19 +223,21 @@ type rig struct {
 	clk   int64
 	start time.Time
 
-	realtime   bool            // race mode: no freshness, no virtual clock
-	yield      func(string)    // scheduler boundary (nil = sequential)
-	mask       map[string]bool // enabled boundaries (nil = all)
-	trace      []string        // rendered requests, for witnesses
-	sigs       map[string]bool // signatures already reported in this rig (one record per rig)
-	boundMax   int             // largest vstore "_body" sum seen
-	boundOp    string
-	invMu      map[string][]*rq     // mkey -> requests for which the invalidator returned true
-	fctx       *fasthttp.RequestCtx // the one reused context (conf.ReuseCtx)
-	extra      map[string]any       // scenario / schedule, merged into every violation detail
-	concurrent bool                 // requests overlapped at some point in this rig's life
-	inline     bool                 // requests run on the caller's goroutine (parallel workers of cache.race)
-	dead       bool                 // a request never completed: the rig is abandoned, nothing more is sent
+	realtime             bool            // race mode: no freshness, no virtual clock
+	yield                func(string)    // scheduler boundary (nil = sequential)
+	mask                 map[string]bool // enabled boundaries (nil = all)
+	trace                []string        // rendered requests, for witnesses
+	sigs                 map[string]bool // signatures already reported in this rig (one record per rig)
+	boundMax             int             // largest vstore "_body" sum seen
+	boundOp              string
+	invMu                map[string][]*rq     // mkey -> requests for which the invalidator returned true
+	fctx                 *fasthttp.RequestCtx // the one reused context (conf.ReuseCtx)
+	extra                map[string]any       // scenario / schedule, merged into every violation detail
+	concurrent           bool                 // requests overlapped at some point in this rig's life
+	inline               bool                 // requests run on the caller's goroutine (parallel workers of cache.race)
+	followUpInconclusive bool
+	gids                 map[uint64]bool // real-time build: goroutines that ran requests of this rig
+	dead                 bool            // a request never completed: the rig is abandoned, nothing more is sent
 }
 
 func (g *rig) now() time.Duration {
@@ -474,7 +476,9 @@ func (g *rig) panicClass(q *rq) string {
 // probes, fills, corpus) the request runs on its own goroutine and the caller waits for it with a
 // virtual-time limit: under the fake clock a timer only fires when every goroutine is blocked, and
 // nothing on the request path waits on a timer except the origin's scripted sleep, so a request
-// that has not completed when the timer fires never will. The rig is then abandoned (the goroutine
+// that has not completed when the timer fires never will. (In the real-time race build there is
+// no such clock: see realtime.go - a deadlock is only reported when a goroutine dump confirms a
+// leaked lock, a fired guard alone is inconclusive.) The rig is then abandoned (the goroutine
 // is leaked, nothing more is sent through it) and the violation is reported; the process goes on.
 func (g *rig) do(q *rq) {
 	g.mu.Lock()
@@ -493,16 +497,27 @@ func (g *rig) do(q *rq) {
 		g.doInline(q)
 		close(done)
 	}()
-	wait := time.Duration(q.Sleep)*time.Second + 50*time.Millisecond
 	if g.realtime {
-		wait = 3 * time.Second
-	}
-	t := time.NewTimer(wait)
-	select {
-	case <-done:
-		t.Stop()
-		return
-	case <-t.C:
+		// race build: no wall-clock verdicts (see realtime.go)
+		switch g.waitRealtime(done) {
+		case "done":
+			return
+		case "timeout":
+			g.mu.Lock()
+			g.dead = true
+			g.mu.Unlock()
+			q.Hung = true
+			g.e.Inconclusive("cache.race: a sequential request did not complete within the real-time guard and no leaked lock was confirmed (" + q.spec() + ")")
+			return
+		}
+	} else {
+		t := time.NewTimer(time.Duration(q.Sleep)*time.Second + 50*time.Millisecond)
+		select {
+		case <-done:
+			t.Stop()
+			return
+		case <-t.C:
+		}
 	}
 	g.mu.Lock()
 	g.dead = true
@@ -551,6 +566,15 @@ func (g *rig) hangClass(family string) string {
 
 // doInline runs the request on the calling goroutine; a panic is captured in q.Panic.
 func (g *rig) doInline(q *rq) {
+	if g.realtime {
+		id := curGoid()
+		g.mu.Lock()
+		if g.gids == nil {
+			g.gids = map[uint64]bool{}
+		}
+		g.gids[id] = true
+		g.mu.Unlock()
+	}
 	if g.vs != nil {
 		_, ok := g.vs.Peek(g.skey(q))
 		q.Absent = !ok
